@@ -250,6 +250,122 @@ func (g *Gen) escapeArgs(fr *Frame, st *State, c *ssa.CallCommon) {
 	for _, v := range vals {
 		g.escapeVal(st, v, 0)
 	}
+	// a pointer to a module struct with function-typed fields: the callee may invoke the closures stored there
+	for _, v := range vals {
+		var stt *types.Struct
+		if v.Ptr != nil && v.Ptr.Kind == pField && len(v.Ptr.Path) == 0 && v.Ptr.Ty != nil {
+			stt, _ = types.Unalias(v.Ptr.Ty).Underlying().(*types.Struct)
+		}
+		if stt == nil && v.Ty != nil {
+			if pt, ok := types.Unalias(v.Ty).Underlying().(*types.Pointer); ok {
+				stt, _ = pt.Elem().Underlying().(*types.Struct)
+			}
+		}
+		if stt == nil {
+			continue
+		}
+		hasFunc := false
+		for i := 0; i < stt.NumFields(); i++ {
+			if _, ok := stt.Field(i).Type().Underlying().(*types.Signature); ok {
+				hasFunc = true
+			}
+		}
+		if !hasFunc {
+			continue
+		}
+		for f := fr; f != nil; f = f.parent {
+			for _, clo := range f.closures {
+				g.havocCaptured(st, clo)
+			}
+		}
+	}
+}
+
+// havocCaptured: everything a closure captured may have been modified by running it.
+func (g *Gen) havocCaptured(st *State, clo *Closure) {
+	// which captured variables does the closure body assign, and which captured maps does it update?
+	assigns := map[int]bool{}
+	mutates := map[int]bool{}
+	fvIndex := func(v ssa.Value) int {
+		for i, fv := range clo.Fn.FreeVars {
+			if v == ssa.Value(fv) {
+				return i
+			}
+		}
+		return -1
+	}
+	for _, b := range clo.Fn.Blocks {
+		for _, in := range b.Instrs {
+			switch x := in.(type) {
+			case *ssa.Store:
+				if i := fvIndex(x.Addr); i >= 0 {
+					assigns[i] = true
+				}
+				// stores through pointers derived from a captured variable (fields, elements)
+				switch a := x.Addr.(type) {
+				case *ssa.FieldAddr:
+					if u, ok := a.X.(*ssa.UnOp); ok {
+						if i := fvIndex(u.X); i >= 0 {
+							mutates[i] = true
+						}
+					}
+				case *ssa.IndexAddr:
+					if u, ok := a.X.(*ssa.UnOp); ok {
+						if i := fvIndex(u.X); i >= 0 {
+							mutates[i] = true
+						}
+					}
+				}
+			case *ssa.MapUpdate:
+				if u, ok := x.Map.(*ssa.UnOp); ok {
+					if i := fvIndex(u.X); i >= 0 {
+						mutates[i] = true
+					}
+				}
+			case ssa.CallInstruction:
+				// calls inside the closure may do anything to what it captured
+				for _, a := range x.Common().Args {
+					if i := fvIndex(a); i >= 0 {
+						assigns[i] = true
+					}
+				}
+			}
+		}
+	}
+	if len(clo.Fn.AnonFuncs) > 0 {
+		for i := range clo.Bindings {
+			assigns[i], mutates[i] = true, true
+		}
+	}
+	for bi, b := range clo.Bindings {
+		if b.Ptr == nil || b.Ptr.Kind != pCell {
+			continue
+		}
+		if !assigns[bi] && !mutates[bi] {
+			continue
+		}
+		cur, ok := st.cells[b.Ptr.Cell]
+		if !ok {
+			continue
+		}
+		if cur.Ty != nil && !assigns[bi] {
+			if mt, ok := types.Unalias(cur.Ty).Underlying().(*types.Map); ok {
+				// the map object's contents
+				dn, ds, vn, vs := g.mapHeaps(mt)
+				ks, es := g.sortOf(mt.Key()), g.sortOf(mt.Elem())
+				dh := g.heapTerm(st, dn, ds)
+				vh := g.heapTerm(st, vn, vs)
+				g.setHeap(st, dn, ds, fmt.Sprintf("(store %s %s %s)", dh, cur.T, g.vc.freshConst("mdh", "(Array "+ks+" Bool)")), cur.T)
+				if es != "Tuple" {
+					g.setHeap(st, vn, vs, fmt.Sprintf("(store %s %s %s)", vh, cur.T, g.vc.freshConst("mvh", "(Array "+ks+" "+es+")")), cur.T)
+				}
+				lh := g.heapTerm(st, g.mlenHeap(mt), "(Array Int Int)")
+				g.setHeap(st, g.mlenHeap(mt), "(Array Int Int)", fmt.Sprintf("(store %s %s %s)", lh, cur.T, g.vc.freshConst("mlh", "Int")), cur.T)
+				continue
+			}
+		}
+		g.setCell(st, b.Ptr.Cell, Val{T: g.vc.freshConst("esc", cur.S), S: cur.S, Ty: cur.Ty})
+	}
 }
 
 func (g *Gen) escapeVal(st *State, v Val, depth int) {
